@@ -129,6 +129,14 @@ def shrink(prop, case, pred_batch, max_rounds=40):
 
 
 def run_property(prop, tier, seed, replay_path=None):
+    if replay_path:
+        try:
+            rp0 = json.load(open(replay_path))
+        except Exception:                                      # noqa: BLE001
+            rp0 = {}
+        if "case" not in rp0 and "ops" not in rp0:
+            # replays of black-box, build and proof failures carry no op list: they are replayed by running the whole check again
+            replay_path = None
     t0 = time.time()
     pid = prop.pid
     out_lines = []
@@ -169,9 +177,11 @@ def run_property(prop, tier, seed, replay_path=None):
         elif chk_ax not in ("<none>",):
             broken.append("coqchk reports axioms: " + chk_ax)
     if axioms:
-        std_ok = all(prop_axioms_allowed(a) for a in axioms)
-        if not std_ok:
-            broken.append("unexpected axioms: " + " | ".join(axioms))
+        # DESIGN.md section 8 claims NO axiom at all (not even the standard library's): any is a broken obligation
+        broken.append("axioms reported by Print Assumptions: " + " | ".join(a.strip().replace("\n", " ") for a in axioms))
+    if coq_ok and proof_ok and not skip_coq and closed < len(theorems):
+        broken.append("Print Assumptions answered 'Closed under the global context' %d times for %d theorems: every theorem of "
+                      "Properties/%s.v must be followed by its Print Assumptions" % (closed, len(theorems), pid))
 
     # ---- 2. executables
     workdir = tempfile.mkdtemp(prefix="run-%s-" % pid, dir=ensure(os.path.join(BUILD, "run")))
@@ -200,6 +210,8 @@ def run_property(prop, tier, seed, replay_path=None):
         for i, c in enumerate(cases):
             c["id"] = i + 1
             c.setdefault("meta", {})
+        if not cases:
+            raise BuildError("the generator produced no case: nothing would be checked")
 
         # ---- 4./5. run and evaluate
         ev = evaluate(prop, cases, bins, driver, workdir)
@@ -371,8 +383,10 @@ def run_property(prop, tier, seed, replay_path=None):
         write_evidence(pid, tier, seed, cov,
                        ["FS calls succeed", "model hand-written; tied to the code only by the correspondence run above"]
                        + list(prop.trusted), time.time() - t0, len(violations))
-    except BuildError as e:
-        path = write_replay(pid, {"property": pid, "kind": "build", "error": str(e)[-3000:]})
+    except Exception as e:                                     # noqa: BLE001  (BuildError or an internal error of the machinery)
+        import traceback
+        kind = "build" if isinstance(e, BuildError) else "internal"
+        path = write_replay(pid, {"property": pid, "kind": kind, "error": (str(e) if kind == "build" else traceback.format_exc())[-3000:]})
         say("VIOLATION property=%s replay=%s no-failing-input-found" % (pid, path))
         write_evidence(pid, tier, seed, {"evaluations": 1, "distinct_nontrivial": 0, "explanation": "build failed",
                                          "obligations": 1, "discharged": 0, "checker_cmd": "n/a", "trusted_base": []},
